@@ -67,7 +67,7 @@ type builder struct {
 	dir  string
 	n    int
 	wrap func(n *cfgNode, s blobserver.Storage) blobserver.Storage // optional interposer (fault injection)
-	kv   func(kind, dir, name string) map[string]any             // KV config provider (default kvConf)
+	kv   func(kind, dir, name string) map[string]any               // KV config provider (default kvConf)
 }
 
 func newBuilder(dir string) *builder { return &builder{ld: newLoader(), dir: dir, kv: kvConf} }
@@ -111,6 +111,10 @@ func (b *builder) build(n *cfgNode) error {
 		case "memory":
 			s = &memory.Storage{}
 		case "localdisk":
+			if n.Detail == "queue" { // a sync queue's directory: enumerations clean up empty shard directories there
+				dir = filepath.Join(dir, "queue-verif")
+				os.MkdirAll(dir, 0o755)
+			}
 			s, err = blobserver.CreateStorage("filesystem", b.ld, jsonconfig.Obj{"path": dir})
 		case "diskpacked":
 			parts := strings.Split(n.Detail, ",") // maxFileSize,indexKind
